@@ -7,6 +7,9 @@ CONSTANTS
   MaxT = 2
   Phases <- core_q_Phases
   ShapeSet <- core_q_Shapes
+  Signers = {"s1", "s2"}
+  Recipients = {"r1", "r2"}
+  Policies <- core_q_Policies
   CfgName = "core_q"
 INIT Init
 NEXT Next
